@@ -43,6 +43,7 @@ func main() {
 	out := flag.String("out", "", "output root")
 	invPath := flag.String("inventory", "", "write the construct inventory here")
 	tags := flag.String("tags", "verif,vsched", "build tags")
+	flag.BoolVar(&racesOn, "races", false, "insert memory-access reports for the happens-before race oracle")
 	flag.Parse()
 	if *out == "" || flag.NArg() == 0 {
 		die("usage")
@@ -183,13 +184,15 @@ func rewritePkg(fset *token.FileSet, imp types.Importer, repo, pkgdir string, ov
 		files = append(files, f)
 		names = append(names, logical)
 	}
-	info := &types.Info{Types: map[ast.Expr]types.TypeAndValue{}, Uses: map[*ast.Ident]types.Object{}, Defs: map[*ast.Ident]types.Object{}}
+	info := &types.Info{Types: map[ast.Expr]types.TypeAndValue{}, Uses: map[*ast.Ident]types.Object{}, Defs: map[*ast.Ident]types.Object{},
+		Selections: map[*ast.SelectorExpr]*types.Selection{}}
 	conf := types.Config{Importer: imp, Error: func(err error) {}}
-	if _, err := conf.Check(pkgdir, fset, files, info); err != nil {
+	tpkg, err := conf.Check(pkgdir, fset, files, info)
+	if err != nil {
 		die("type-check %s: %v", pkgdir, err)
 	}
 	for i, f := range files {
-		rw := &rewriter{fset: fset, info: info, inv: inv, file: names[i]}
+		rw := &rewriter{fset: fset, info: info, inv: inv, file: names[i], pkg: tpkg}
 		rw.file2(f)
 		var buf bytes.Buffer
 		if err := format.Node(&buf, fset, f); err != nil {
@@ -212,6 +215,7 @@ type rewriter struct {
 	changed bool
 	cur     *ast.File
 	skip    map[ast.Node]bool // comm-clause operations handled by the select rewrite
+	pkg     *types.Package
 	n       int
 }
 
@@ -265,6 +269,7 @@ func (r *rewriter) timePkgObj(e ast.Expr, names ...string) (string, bool) {
 func (r *rewriter) file2(f *ast.File) {
 	r.skip = map[ast.Node]bool{}
 	r.cur = f
+	r.racesPass(f)
 	// pass 1: mark comm-clause operations, reject what cannot be translated
 	ast.Inspect(f, func(n ast.Node) bool {
 		switch x := n.(type) {
